@@ -151,30 +151,26 @@ theorem sends_done_sem_sound (cur : Sched) (e : Expr) (xs : List XEv) (h : sdSem
   exact (key xs (initSt cur e) ⟨ND_connect e cur, by rw [initSt, sdSem_connect]; exact h⟩
     (fun _ _ => trivial) obs hobs).1
 
-/-- **A sender that declares `sends_done = false` never completes with done** — for every
-    expression that does not contain dematerialize(materialize(·)), for which the declaration is
-    wrong (`sends_done_unsound_dematerialize`). -/
-theorem sends_done_false_sound (cur : Sched) (e : Expr) (xs : List XEv)
-    (hmd : mdFree e = true) (h : sendsDone e = false) :
+/-- **A sender that declares `sends_done = false` never completes with done** — every expression,
+    every leaf script, every event sequence. -/
+theorem sends_done_false_sound (cur : Sched) (e : Expr) (xs : List XEv) (h : sendsDone e = false) :
     ∀ obs ∈ runX specs (initSt cur e) xs, obs.sig ≠ some .done :=
-  sends_done_sem_sound specs cur e xs (by rw [← sendsDone_eq_sdSem e hmd]; exact h)
+  sends_done_sem_sound specs cur e xs (sdSem_le_sendsDone e h)
 
-/-- FINDING (dematerialize.hpp:176): `dematerialize(materialize(just_done()))` declares
-    `sends_done = false` (dematerialize copies its source's flag, materialize's is `false`) and
-    completes with done. -/
-theorem sends_done_unsound_dematerialize :
-    sendsDone (.un .matDemat (.const .justDone)) = false ∧
-    (runX (fun _ => .inline (.value 0)) (initSt (.man 0) (.un .matDemat (.const .justDone))) [.start 0]).map (·.sig)
-      = [some .done] := by
-  decide
+/-- dematerialize(materialize(e)) declares exactly what `e` declares (dematerialize.hpp: its source's
+    flag OR `materializes_done<Source>`; materialize.hpp publishes its source's flag as
+    `materializes_done`) — which is what makes `sends_done_false_sound` hold without exception:
+    `dematerialize(materialize(just_done()))` completes with done and declares it,
+    `dematerialize(materialize(just(1)))` does neither. -/
+theorem dematerialize_declares_source (e : Expr) : sendsDone (.un .matDemat e) = sendsDone e := rfl
 
 /-! ### 5. is_always_scheduler_affine -/
 
 /-- **A sender that declares `is_always_scheduler_affine`, connected to a receiver whose scheduler is
     the manual scheduler of context c, started on c, with every stop request issued on c, emits its
     completion signal on context c** — provided the expression is `Scoped`: each
-    with_scheduler_affinity names the scheduler in scope and no with_query_value replaces
-    get_scheduler by a different scheduler. -/
+    with_scheduler_affinity(e, s) that is not below another one is called with the receiver's
+    scheduler (the contract of with_scheduler_affinity). -/
 theorem affine_sound (c : Nat) (e : Expr) (xs : List XEv)
     (ha : affine e = true) (hs : Scoped (.man c) e = true)
     (hstart : ∀ k, .start k ∈ xs → k = c) (hstop : ∀ k, .stop k ∈ xs → k = c) :
@@ -204,26 +200,24 @@ theorem affine_sound (c : Nat) (e : Expr) (xs : List XEv)
     (fun x hx => ⟨fun k hk => hstart k (hk ▸ hx), fun k hk => hstop k (hk ▸ hx)⟩) obs hobs
   rw [this.2]; exact this.1 hsig
 
-/-- FINDING (with_query_value.hpp:141): with_query_value(e, get_scheduler, s) keeps e's
-    `is_always_scheduler_affine` although it changes the scheduler e is affine TO:
-    `with_query_value(schedule(), get_scheduler, s2)` declares affine, is started on context 0 by a
-    receiver whose scheduler is context 0 — and completes on context 2. -/
-theorem affine_unsound_with_query_value :
-    affine (.un (.withSched (.man 2)) (.schedCur 1)) = true ∧
-    (runX (fun _ => .inline (.value 0)) (initSt (.man 0) (.un (.withSched (.man 2)) (.schedCur 1)))
-        [.start 0, .run 2 false]).map (fun o => (o.ctx, o.sig))
-      = [(0, none), (2, some (.value 0))] := by
-  decide
+/-- with_query_value(e, get_scheduler, s) is never declared affine (with_query_value.hpp): `e` is
+    affine to the scheduler it is GIVEN, not to the scheduler of the receiver -/
+theorem with_query_value_not_affine (s : Sched) (e : Expr) : affine (.un (.withSched s) e) = false := rfl
 
-/-- the same through on(): `on(inline_scheduler, with_scheduler_affinity(leaf, inline_scheduler))`
-    declares affine (on.hpp = sequence(schedule(inline), with_query_value(…))) and completes wherever
-    the leaf is completed -/
-theorem affine_unsound_on_inline :
-    affine (on .inl 1 (withAffinity .inl 2 (.leaf 1))) = true ∧
-    (runX (fun _ => .pending .ignore) (initSt (.man 0) (on .inl 1 (withAffinity .inl 2 (.leaf 1))))
-        [.start 0, .complete 1 (.value 5) 3]).map (fun o => (o.ctx, o.sig))
-      = [(0, none), (3, some (.value 5))] := by
-  decide
+/-- hence on(s, e) = sequence(schedule(s), with_query_value(e, get_scheduler, s)) is never declared
+    affine either -/
+theorem on_not_affine (s : Sched) (j : Nat) (e : Expr) : affine (on s j e) = false := by
+  simp [on, affine]
+
+/-- so with_scheduler_affinity does not take such a sender for affine: it wraps it, and the result
+    is delivered on the receiver's scheduler's context — for every expression `e`, scheduler `s2`,
+    leaf script and event sequence (instance of `affine_sound`) -/
+theorem with_affinity_rehops_replaced_scheduler (c j : Nat) (s2 : Sched) (e : Expr) (xs : List XEv)
+    (hstart : ∀ k, .start k ∈ xs → k = c) (hstop : ∀ k, .stop k ∈ xs → k = c) :
+    ∀ obs ∈ runX specs (initSt (.man c) (withAffinity (.man c) j (.un (.withSched s2) e))) xs,
+      obs.sig.isSome = true → obs.ctx = c :=
+  affine_sound specs c _ xs (by simp [withAffinity, affine]) (by simp [withAffinity, affine, Scoped])
+    hstart hstop
 
 /-! ### 6. Non-vacuity -/
 
@@ -239,6 +233,21 @@ example :
     (runX (fun _ => .pending .ignore) (initSt (.man 0) (withAffinity (.man 0) 7 (.leaf 1)))
         [.start 0, .complete 1 (.value 4) 3, .run 0 false]).map (fun o => (o.ctx, o.sig))
       = [(0, none), (3, none), (0, some (.value 4))] := by decide
+
+/-- with_query_value(schedule(), get_scheduler, s2) completes on s2's context (declared non-affine);
+    wrapped by with_scheduler_affinity it comes back to context 0 -/
+example :
+    (runX (fun _ => .inline (.value 0)) (initSt (.man 0) (.un (.withSched (.man 2)) (.schedCur 1)))
+        [.start 0, .run 2 false]).map (fun o => (o.ctx, o.sig)) = [(0, none), (2, some (.value 0))] ∧
+    (runX (fun _ => .inline (.value 0)) (initSt (.man 0) (withAffinity (.man 0) 7 (.un (.withSched (.man 2)) (.schedCur 1))))
+        [.start 0, .run 2 false, .run 0 false]).map (fun o => (o.ctx, o.sig))
+      = [(0, none), (2, none), (0, some (.value 0))] := by decide
+
+/-- dematerialize(materialize(just_done())) completes with done — and declares it -/
+example :
+    sendsDone (.un .matDemat (.const .justDone)) = true ∧
+    (runX (fun _ => .inline (.value 0)) (initSt (.man 0) (.un .matDemat (.const .justDone))) [.start 0]).map (·.sig)
+      = [some .done] := by decide
 
 /-- an expression whose declared blocking kind is `always` (not always_inline) -/
 example : blocking (.bin .whenAll (.sleaf 1) (.const (.just 2))) = .always := by decide
